@@ -21,7 +21,7 @@ const ENC: [&str; 5] = [
     "lzma2",
     "xz",
 ];
-const READERS: [&str; 8] = ["whole slice", "BufReader cap 1", "BufReader small over short reads", "chaos short reads", "BufReader 64K over short reads", "short prefix slice chained with the rest", "chaos windows up to 200 KiB", "BufReader 256K over short reads up to 100 KiB"];
+const READERS: [&str; 9] = ["whole slice", "BufReader cap 1", "BufReader small over short reads", "chaos short reads", "BufReader 64K over short reads", "short prefix slice chained with the rest", "chaos windows up to 200 KiB", "BufReader 256K over short reads up to 100 KiB", "reader that also returns Interrupted (retry) now and then, behind a BufReader"];
 const CONTENT: [&str; 7] = ["zeros", "0xFF", "random", "low-entropy", "structured", "alternating", "hook-guided"];
 
 fn content(rng: &mut Rng, kind: usize, n: usize) -> Vec<u8> {
@@ -88,7 +88,11 @@ pub fn encode(enc: usize, reader: usize, data: &[u8], seed: u64, sink: &SharedSi
                 run(&mut data[..k].chain(&data[k..]), &mut w)
             }
             6 => run(&mut ChaosReader::new(data, seed, 200_000), &mut w),
-            _ => run(&mut BufReader::with_capacity(1 << 18, ShortReader::new(data, 100_000, seed)), &mut w),
+            7 => run(&mut BufReader::with_capacity(1 << 18, ShortReader::new(data, 100_000, seed)), &mut w),
+            _ => run(
+                &mut BufReader::with_capacity(*[1usize << 16, 8192, 300][(seed % 3) as usize..].first().unwrap(), crate::gen::io::InterruptingReader::new(data, 50_000, seed, 2 + seed % 5)),
+                &mut w,
+            ),
         }
         .map_err(|e| e.to_string())
     });
@@ -221,6 +225,15 @@ fn check_one(
     out.nontrivial.push(case_hash(&[data, &[enc as u8, reader as u8]]));
     let what = format!("{} | input {} bytes ({}) | reader: {}", ENC[enc], data.len(), CONTENT[ckind], READERS[reader]);
     let dj = || J::obj().set("input_hex", J::s(crate::util::hex_trunc(data, 2048))).set("input_len", J::i(data.len())).set("case", J::s(what.as_str()));
+    if reader == 8 && er.verdict.is_err() {
+        // reporting the interruption is fine (the caller may retry); carrying on is fine too -
+        // but then the output has to be complete, which the checks below decide
+        cov.name("interrupting_reader.encoder_reported_the_interruption", 1);
+        return (0, 0);
+    }
+    if reader == 8 {
+        cov.name("interrupting_reader.encoder_carried_on", 1);
+    }
     if !er.verdict.is_ok() {
         out.violate(format!("C04/{}/encoder-failed/{}", ENC[enc], verdict_sig(&er.verdict)), format!("{}: {}", what, er.verdict.short()), dj());
         return (0, 0);
@@ -272,7 +285,7 @@ fn fam_random(ctx: &CaseCtx, cov: &mut Cov) -> CaseOut {
     let data = content(&mut rng, ckind, n);
     let enc = rng.usize_below(5);
     // one-byte readers on big inputs are slow but legal; keep them to moderate sizes
-    let reader = if n > 200_000 { *rng.pick(&[0usize, 3, 4, 5, 6, 7]) } else { rng.usize_below(8) };
+    let reader = if n > 200_000 { *rng.pick(&[0usize, 3, 4, 5, 6, 7, 8]) } else { rng.usize_below(9) };
     let seed = rng.next();
     check_one(&mut out, cov, ctx, enc, reader, ckind, &data, seed);
     out.sample = Some(J::obj().set("encoder", J::s(ENC[enc])).set("input_len", J::i(n)).set("content", J::s(CONTENT[ckind])).set("reader", J::s(READERS[reader])));
@@ -286,9 +299,9 @@ fn fam_grid(ctx: &CaseCtx, cov: &mut Cov) -> CaseOut {
     let i = ctx.index as usize;
     let enc = i % 5;
     let len = lens[(i / 5) % lens.len()];
-    let reader = (i / 40) % 8;
+    let reader = (i / 40) % 9;
     let mut rng = ctx.rng();
-    let ckind = [2usize, 0, 1, 4][(i / 320) % 4];
+    let ckind = [2usize, 0, 1, 4][(i / 360) % 4];
     let data = content(&mut rng, ckind, len);
     check_one(&mut out, cov, ctx, enc, reader, ckind, &data, i as u64 + 1);
     out
@@ -589,7 +602,7 @@ fn label(group: &str, i: u32) -> String {
 
 fn floors(_: Tier, cov: &Cov) -> Vec<String> {
     let mut m = Vec::new();
-    if cov.group_nonzero("encoder") < 5 || cov.group_nonzero("input_reader") < 8 || cov.group_nonzero("length_class") < 10 {
+    if cov.group_nonzero("encoder") < 5 || cov.group_nonzero("input_reader") < 9 || cov.group_nonzero("length_class") < 10 {
         m.push("encoder / reader / length grid incomplete".into());
     }
     if cov.maxes.get("adversarial_pending_run_observed_by_hook").copied().unwrap_or(0) < 10 {
@@ -608,13 +621,13 @@ pub fn monitor(tier: Tier) -> Monitor {
     Monitor {
         id: "C04",
         level: "exploration",
-        rule: "cases = (input bytes, encoder in {lzma x 3 options, lzma2, xz}, input fragmentation in 8 patterns (whole slice, 1-byte BufReader, small BufReader over short reads, random windows up to 300 bytes / up to 200 KiB, 64 KiB and 256 KiB BufReaders over short reads, a short prefix slice chained with the rest)): a fixed grid over the boundary lengths 0/1/2/65535/65536/65537/131072/131073, seeded random cases (7 content kinds, lengths up to 1 MiB) a hook-guided search that mutates inputs to maximise pending-0xFF runs and carries in the range encoder (RcShift events), and inputs CONSTRUCTED with an exact arithmetic model of the literal coder so that the carry stays undecided for 2..14 output bytes and is then resolved with / without a carry (the RcShift hook confirms the run length the real encoder went through), or so that a carry arrives while the byte under it is itself 0xFF - low in [0x1_FF00_0000, 2^33) at a shift, the corner where both halves of the flush condition hold; found by a steered search on the model, confirmed by the hook's view of the real encoder's low register; every encoder output must (i) decode back with lzma-rs and the matching option, (ii) satisfy the reference decoder / strict LZMA2 reader / strict XZ parser incl. header fields and exact payload length, (iii) decode with liblzma; distinct by hash of (input, encoder, reader)",
+        rule: "cases = (input bytes, encoder in {lzma x 3 options, lzma2, xz}, input fragmentation in 8 patterns (whole slice, 1-byte BufReader, small BufReader over short reads, random windows up to 300 bytes / up to 200 KiB, 64 KiB and 256 KiB BufReaders over short reads, a short prefix slice chained with the rest, a reader that now and then returns Interrupted before handing out data - the encoder may report that, but if it carries on the output must be complete)): a fixed grid over the boundary lengths 0/1/2/65535/65536/65537/131072/131073, seeded random cases (7 content kinds, lengths up to 1 MiB) a hook-guided search that mutates inputs to maximise pending-0xFF runs and carries in the range encoder (RcShift events), and inputs CONSTRUCTED with an exact arithmetic model of the literal coder so that the carry stays undecided for 2..14 output bytes and is then resolved with / without a carry (the RcShift hook confirms the run length the real encoder went through), or so that a carry arrives while the byte under it is itself 0xFF - low in [0x1_FF00_0000, 2^33) at a shift, the corner where both halves of the flush condition hold; found by a steered search on the model, confirmed by the hook's view of the real encoder's low register; every encoder output must (i) decode back with lzma-rs and the matching option, (ii) satisfy the reference decoder / strict LZMA2 reader / strict XZ parser incl. header fields and exact payload length, (iii) decode with liblzma; distinct by hash of (input, encoder, reader)",
         assumptions: vec![
             "WriteToHeader(Some(x)) with x != input length is a documented caller error and is not generated".into(),
             "independent conforming decoders = reference decoder (self-checked) and system liblzma".into(),
         ],
         families: vec![
-            Family { name: "grid", count: 1280, priority: true, enumerated: false, run: fam_grid },
+            Family { name: "grid", count: 1440, priority: true, enumerated: false, run: fam_grid },
             Family { name: "random", count: tier.pick(4_000, 200_000), priority: false, enumerated: false, run: fam_random },
             Family { name: "guided", count: tier.pick(150, 4000), priority: false, enumerated: false, run: fam_guided },
             Family { name: "adversarial_carry", count: tier.pick(120, 4000), priority: true, enumerated: false, run: fam_adversarial },
